@@ -246,6 +246,23 @@ func engRun(c *engCase, cmds []database.Command, dir string) {
 	run("fuzzy_off", q, oo)
 	oo.UseFuzzy = true
 	run("fuzzy_on", q, oo)
+	// the same request after the database was replaced by a list of the same size (here: the same entries, which the
+	// wrapper held in reverse order and had already answered a search from): the answer is that of the list held now
+	func() {
+		defer func() {
+			if rec := recover(); rec != nil {
+				c.Note = "panic in replace run"
+			}
+		}()
+		rev := make([]database.Command, n)
+		for i := range db.Commands {
+			rev[n-1-i] = db.Commands[i]
+		}
+		sdb := database.NewCachedDatabase(database.VerifFresh(rev))
+		sdb.SearchWithOptionsAndCache(q, oo)
+		sdb.UpdateDatabase(append([]database.Command(nil), db.Commands...))
+		c.Extra["fuzzy_after_replace"] = projectResults(sdb.Database, sdb.SearchWithOptionsAndCache(q, oo))
+	}()
 	big := o
 	big.Limit = n + 5
 	big.UseFuzzy = false
